@@ -110,7 +110,10 @@ def verdicts(c):
     spec = c.spec if c.spec not in (None, "-", "?", "") else None
     spec_ok = spec is not None and spec.startswith("next=0x")
     # falcon against silicon
-    if native_ok:
+    # the state's windows are the only mapped memory for falcon and for the specification; the stepper's scratch region is
+    # mapped around them.  When both falcon and the specification fault on an access outside the windows the case says nothing.
+    outside = fp is not None and fp[0] == "err:unmapped" and c.spec == "next=trap"
+    if native_ok and not outside:
         if fp is None or not fp[0].startswith("0x"):
             out.append(("violation", "silicon/" + (fp[0] if fp else "unparsable")))
         else:
